@@ -418,7 +418,7 @@ func c12Builders(c *Ctx, prog *load.Program) {
 			enc := absint.SymBytes("*k.pointBytes", 65, 0)
 			kp := args[0].(*absint.Ptr)
 			ib := FieldIndex(prog, models.SececPkg, "PublicKey", "pointBytes")
-			ex.StoreLeaf(st, ex.FieldPtr(kp, ib), ex.BytesToSlice(st, enc, "pointBytes"), 0)
+			storeBytesField(ex, st, kp, prog, models.SececPkg, "PublicKey", ib, enc, "pointBytes")
 		}})
 		key := "build/buildASN1PublicKey"
 		pos := PosOf(prog, r.Fn)
